@@ -259,7 +259,12 @@ where
                 XRef::Raw {pos, ..} => {
                     let pos = t!(self.start_offset.checked_add(pos).ok_or(PdfError::Invalid));
                     let mut lexer = Lexer::with_offset(t!(self.backend.read(pos ..)), pos);
-                    let p = t!(parse_indirect_object(&mut lexer, resolve, self.decoder.as_ref(), flags)).1;
+                    let (id, p) = t!(parse_indirect_object(&mut lexer, resolve, self.decoder.as_ref(), flags));
+                    // the table is authoritative for the object number: what stands at that position must be this object
+                    // (the header id keys the stream cache and the per-object decryption key)
+                    if id.id != r.id {
+                        bail!("object {} found at the position of object {}", id.id, r.id);
+                    }
                     Ok(p)
                 }
                 XRef::Stream {stream_id, index} => {
